@@ -289,7 +289,7 @@ pub fn pipe_line(tag: &str, e: &Engine, volume_db: f64, lines: &[String], kind: 
 pub fn gen_c01(seed: u64, thorough: bool) {
     let mut rng = Rng::new(seed);
     let src = Sources::new();
-    let n = if thorough { 1500 } else { 60 };
+    let n = if thorough { 800 } else { 60 };
     for i in 0..n {
         let (mut e, kind) = src.any_engine(&mut rng);
         let small = i % 6 != 0;
@@ -336,7 +336,7 @@ pub fn gen_c01(seed: u64, thorough: bool) {
         println!("{}", pipe_line("C01", &e, vdb, &lines, kind));
     }
     // the same pipeline driven from the voice files alone (header, trees, PDFs, interpolation included)
-    gen_e2e(&mut rng, &src, "C01", if thorough { 400 } else { 24 });
+    gen_e2e(&mut rng, &src, "C01", if thorough { 200 } else { 24 });
 }
 
 // =========================================================================================== helpers
@@ -461,8 +461,14 @@ pub fn gen_c11(seed: u64, thorough: bool) {
             }
         }
         let pick_thr = |rng: &mut Rng| -> f64 {
-            match rng.below(4) {
+            match rng.below(5) {
                 0 => states[rng.below(states.len())].1.clamp(0.0, 1.0),
+                4 => {
+                    // one to three f64 steps below or above a voicing weight that is present
+                    let w = states[rng.below(states.len())].1.clamp(1e-3, 1.0 - 1e-3);
+                    let k = rng.range(1, 3) as u64;
+                    if rng.chance(0.5) { f64::from_bits(w.to_bits() - k) } else { f64::from_bits(w.to_bits() + k) }
+                }
                 1 => *rng.pick(&[0.0, 1.0, 0.5]),
                 _ => rng.unit(),
             }
